@@ -134,12 +134,14 @@ func (s *Sleeper) AddWaker(w *Waker, id int) {
 	// Try to associate the waker with the sleeper. If it's already
 	// asserted, we simply enqueue it in the "ready" list.
 	for {
+		verifYield("sleep.AddWaker.load")
 		p := (*Sleeper)(atomic.LoadPointer(&w.s))
 		if p == &assertedSleeper {
 			s.enqueueAssertedWaker(w)
 			return
 		}
 
+		verifYield("sleep.AddWaker.cas")
 		if atomic.CompareAndSwapPointer(&w.s, usleeper(p), usleeper(s)) {
 			return
 		}
@@ -151,6 +153,7 @@ func (s *Sleeper) AddWaker(w *Waker, id int) {
 func (s *Sleeper) nextWaker(block bool) *Waker {
 	// Attempt to replenish the local list if it's currently empty.
 	if s.localList == nil {
+		verifYield("sleep.nextWaker.check")
 		for atomic.LoadPointer(&s.sharedList) == nil {
 			// Fail request if caller requested that we
 			// don't block.
@@ -162,12 +165,15 @@ func (s *Sleeper) nextWaker(block bool) *Waker {
 			// this allows them to abort the wait by setting
 			// waitingG back to zero (which we'll notice
 			// before committing the sleep).
+			verifYield("sleep.nextWaker.prepare")
 			atomic.StoreUintptr(&s.waitingG, preparingG)
 
 			// Check if something was queued while we were
 			// preparing to sleep. We need this interleaving
 			// to avoid missing wake ups.
+			verifYield("sleep.nextWaker.recheck")
 			if atomic.LoadPointer(&s.sharedList) != nil {
+				verifYield("sleep.nextWaker.abort")
 				atomic.StoreUintptr(&s.waitingG, 0)
 				break
 			}
@@ -178,6 +184,10 @@ func (s *Sleeper) nextWaker(block bool) *Waker {
 			// gopark puts the caller to sleep and calls
 			// commitSleep to decide whether to immediately
 			// wake the caller up or to leave it sleeping.
+			if verifPark(&s.waitingG) {
+				verifYield("sleep.nextWaker.woken")
+				continue
+			}
 			const traceEvGoBlockSelect = 24
 			gopark(commitSleep, &s.waitingG, "sleeper", traceEvGoBlockSelect, 0)
 		}
@@ -185,6 +195,7 @@ func (s *Sleeper) nextWaker(block bool) *Waker {
 		// Pull the shared list out and reverse it in the local
 		// list. Given that wakers push themselves in reverse
 		// order, we fix things here.
+		verifYield("sleep.nextWaker.swap")
 		v := (*Waker)(atomic.SwapPointer(&s.sharedList, nil))
 		for v != nil {
 			cur := v
@@ -221,6 +232,7 @@ func (s *Sleeper) Fetch(block bool) (id int, ok bool) {
 
 		// Reassociate the waker with the sleeper. If the waker was
 		// still asserted we can return it, otherwise try the next one.
+		verifYield("sleep.Fetch.swap")
 		old := (*Sleeper)(atomic.SwapPointer(&w.s, usleeper(s)))
 		if old == &assertedSleeper {
 			return w.id, true
@@ -243,6 +255,7 @@ func (s *Sleeper) Done() {
 	for w != nil {
 		next := w.allWakersNext
 		for {
+			verifYield("sleep.Done.load")
 			t := atomic.LoadPointer(&w.s)
 			if t != usleeper(s) {
 				w.allWakersNext = pending
@@ -250,6 +263,7 @@ func (s *Sleeper) Done() {
 				break
 			}
 
+			verifYield("sleep.Done.cas")
 			if atomic.CompareAndSwapPointer(&w.s, t, nil) {
 				break
 			}
@@ -284,8 +298,10 @@ func (s *Sleeper) Done() {
 func (s *Sleeper) enqueueAssertedWaker(w *Waker) {
 	// Add the new waker to the front of the list.
 	for {
+		verifYield("sleep.enqueue.load")
 		v := (*Waker)(atomic.LoadPointer(&s.sharedList))
 		w.next = v
+		verifYield("sleep.enqueue.push")
 		if atomic.CompareAndSwapPointer(&s.sharedList, uwaker(v), uwaker(w)) {
 			break
 		}
@@ -293,14 +309,19 @@ func (s *Sleeper) enqueueAssertedWaker(w *Waker) {
 
 	for {
 		// Nothing to do if there isn't a G waiting.
+		verifYield("sleep.enqueue.loadG")
 		g := atomic.LoadUintptr(&s.waitingG)
 		if g == 0 {
 			return
 		}
 
 		// Signal to the sleeper that a waker has been asserted.
+		verifYield("sleep.enqueue.casG")
 		if atomic.CompareAndSwapUintptr(&s.waitingG, g, 0) {
 			if g != preparingG {
+				if verifReady(g) {
+					continue
+				}
 				// We managed to get a G. Wake it up.
 				goready(g, 0)
 			}
@@ -348,11 +369,13 @@ func (w *Waker) Assert() {
 	// Nothing to do if the waker is already asserted. This check allows us
 	// to complete this case (already asserted) without any interlocked
 	// operations on x86.
+	verifYield("sleep.Assert.load")
 	if atomic.LoadPointer(&w.s) == usleeper(&assertedSleeper) {
 		return
 	}
 
 	// Mark the waker as asserted, and wake up a sleeper if there is one.
+	verifYield("sleep.Assert.swap")
 	switch s := (*Sleeper)(atomic.SwapPointer(&w.s, usleeper(&assertedSleeper))); s {
 	case nil:
 	case &assertedSleeper:
@@ -371,12 +394,14 @@ func (w *Waker) Clear() bool {
 	// Nothing to do if the waker is not asserted. This check allows us to
 	// complete this case (already not asserted) without any interlocked
 	// operations on x86.
+	verifYield("sleep.Clear.load")
 	if atomic.LoadPointer(&w.s) != usleeper(&assertedSleeper) {
 		return false
 	}
 
 	// Try to store nil in the sleeper, which indicates that the waker is
 	// not asserted.
+	verifYield("sleep.Clear.cas")
 	return atomic.CompareAndSwapPointer(&w.s, usleeper(&assertedSleeper), nil)
 }
 
